@@ -432,7 +432,16 @@ pub fn c05_sched(ctx: &mut Ctx) {
 fn c14_lattice_case(ctx: &mut Ctx, case: &OligoCase) {
     let inp = format!("{}/lat_in.fa", ctx.scratch);
     let outp = format!("{}/lat_out.txt", ctx.scratch);
-    write_fasta(&inp, &case.records);
+    {
+        // the second record has an empty header line (no id): the size of the mapping must not depend on ids
+        let mut data: Vec<u8> = Vec::new();
+        for (i, r) in case.records.iter().enumerate() {
+            data.extend_from_slice(if i == 1 { ">\n".to_string() } else { format!(">r{} d\n", i) }.as_bytes());
+            data.extend_from_slice(r);
+            data.push(b'\n');
+        }
+        std::fs::write(&inp, data).expect("write fasta");
+    }
     ctx.journal.note(|| format!("C14 lattice {:?}", case));
     ctx.rep.evaluations += 1;
     let (r, res, bytes) = oligo_exec(case, &inp, &outp, &[], FREE_LOGGED);
